@@ -48,6 +48,10 @@ type c14Run struct {
 	OpenHandles     []int `json:"open_handles_after_close"`
 	Choices         []int `json:"choices"`
 	Widths          []int `json:"-"`
+	// which SQL texts stand behind the text indexes (c14ShapedSQL: length / letter case / white space / empty): the cache
+	// must not care, so the Lean LTS is not told
+	Shape     int    `json:"shape,omitempty"`
+	ShapeNote string `json:"shape_note,omitempty"`
 }
 
 func c14NQ(ops []c14Op) int {
@@ -97,7 +101,8 @@ func c14Execute(nV int, ops []c14Op, useErrAns bool, pick func(i int, ch []c14Ch
 
 func c14ExecutePool(nV int, ops []c14Op, maxOpen int, useErrAns bool, pick func(i int, ch []c14Choice) int) *c14Run {
 	w := newC14WorldPool(nV, ops, true, maxOpen)
-	run := &c14Run{NV: nV, Ops: ops, MaxOpen: maxOpen, VStruct: w.vstruct()}
+	w.shape = c14NextShape()
+	run := &c14Run{NV: nV, Ops: ops, MaxOpen: maxOpen, VStruct: w.vstruct(), Shape: w.shape, ShapeNote: c14ShapeName(w.shape)}
 	timeout := c14SettleTimeout()
 	if !c14Settle(timeout) {
 		run.Hang, run.HangKind = true, "timeout"
@@ -426,7 +431,7 @@ func c14Configs() (out []struct {
 }
 
 func c14SampleKey(run *c14Run) string {
-	return canon(map[string]interface{}{"nv": run.NV, "ops": run.Ops, "steps": run.Steps})
+	return canon(map[string]interface{}{"nv": run.NV, "ops": run.Ops, "steps": run.Steps, "shape": run.Shape})
 }
 
 func c14RandomOps(rng *rand.Rand) (int, []c14Op) {
@@ -464,6 +469,7 @@ func c14Record(r *Result, suite string, run *c14Run) {
 	}
 	r.Case(suite, c14SampleKey(run), nt)
 	r.H("c14.goroutines", fmt.Sprint(len(run.Ops)))
+	r.H("c14.text_shape", c14ShapeName(run.Shape))
 	r.H("c14.steps", fmt.Sprint(len(run.Steps)))
 	for _, o := range run.Ops {
 		r.H("c14.op", o.Kind)
@@ -536,6 +542,8 @@ func c14ConfirmHang(r *Result, run *c14Run) bool {
 }
 
 func c14Replay(run *c14Run) *c14Run {
+	c14ForceShape = run.Shape
+	defer func() { c14ForceShape = -1 }()
 	return c14ExecutePool(run.NV, run.Ops, run.MaxOpen, true, func(i int, ch []c14Choice) int {
 		if i < len(run.Steps) {
 			for k, c := range ch {
